@@ -78,17 +78,19 @@ type GroupList struct {
 
 // NewGroupList creates a new group list
 func NewGroupList(a SessionAssets, refs []*assets.GroupReference, missing assets.MissingCallback) *GroupList {
-	groups := make([]*Group, 0, len(refs))
+	l := &GroupList{groups: make([]*Group, 0, len(refs))}
 
 	for _, ref := range refs {
 		group := a.Groups().Get(ref.UUID)
 		if group == nil {
 			missing(ref, nil)
 		} else {
-			groups = append(groups, group)
+			// a membership list is a set: a reference repeated in the stored contact is taken once, otherwise
+			// Remove (which deletes one entry) would leave the contact in a group it was removed from
+			l.Add(group)
 		}
 	}
-	return &GroupList{groups: groups}
+	return l
 }
 
 // returns a clone of this group list
